@@ -36,7 +36,19 @@ LOCAL OnReason(e, m) ==
             { EnvParts[i] : i \in { j \in 1..Len(EnvParts) : e.classes[j] \notin {"same", "rewritten"} } }
          THEN V(m, "the environment diff does not have an edit exactly for the parts that differ")
     ELSE m
-Mon(e, m0) == LET m1 == IF e.ev = "Diff" THEN OnDiff(e, m0) ELSE IF e.ev = "Reason" THEN OnReason(e, m0) ELSE m0
+\* RealReason{differ, eq, named, unknown, outcome}: the same clause on the environments of two real
+\* definitions of one function; differ = the top-level parts that differ (measured by the harness)
+LOCAL OnRealReason(e, m) ==
+    LET differs == { e.differ[i] : i \in DOMAIN e.differ }
+        named == { e.named[i] : i \in DOMAIN e.named } IN
+    IF e.outcome # "ok" THEN V(m, "comparing two environments failed or panicked")
+    ELSE IF differs = {} THEN (IF e.eq THEN m ELSE V(m, "equal environments reported as different"))
+    ELSE IF e.eq THEN V(m, "different environments reported as equal")
+    ELSE IF named # differs \/ Len(e.named) # Cardinality(named) \/ Len(e.unknown) # 0
+         THEN V(m, "the rebuild reason does not name exactly the parts of the environment that differ")
+    ELSE m
+Mon(e, m0) == LET m1 == IF e.ev = "Diff" THEN OnDiff(e, m0) ELSE IF e.ev = "Reason" THEN OnReason(e, m0)
+                        ELSE IF e.ev = "RealReason" THEN OnRealReason(e, m0) ELSE m0
               IN [m1 EXCEPT !.n = @ + 1]
 RunMon(c, es) == FoldLeft(LAMBDA m, e : Mon(e, m), MonInit(c), es)
 =============================================================================
